@@ -101,9 +101,12 @@ LIFE_TRUSTED = CTX_TRUSTED + [
 
 PROPS["C01"] = {
     "functions": ["_context.Context._run_teardown_callbacks", "_context.Context.add_teardown_callback", "_context.Context.__aenter__",
-                  "_context.Context.__aexit__", "_context.Context.add_resource"],
-    "trusted": LIFE_TRUSTED, "assumptions": CTX_ASSUME + ["routes 3 (@context_teardown) and 4 (start_service_task) register through "
-                  "add_teardown_callback; their wrappers are covered by the bounded harness only"],
+                  "_context.Context.__aexit__", "_context.Context.add_resource", "_context.context_teardown.wrapper",
+                  "_context.context_teardown.wrapper.teardown_callback", "_context.Context.start_service_task"],
+    "trusted": LIFE_TRUSTED + ["async generator protocol: asend(None) runs the generator to its first yield or raises StopAsyncIteration; aclose() finishes it"],
+    "assumptions": CTX_ASSUME + ["all four registration routes end in Context.add_teardown_callback: directly, add_resource(teardown_callback=), "
+                  "@context_teardown (wrapper verified: registers exactly once, after the generator reached its yield, on the context current at call "
+                  "time, with pass_exception) and start_service_task (verified under C08)"],
     "undecided": ["termination of the teardown loop (a callback may register callbacks forever)",
                   "'on both backends': only through the backend-independent assumed contracts"],
     "level_text": "Proof: ghost registration tokens turn `exactly once, LIFO, also for callbacks registered during teardown` into a stack "
@@ -112,8 +115,8 @@ PROPS["C01"] = {
                   "invocation, argument = block exception iff pass_exception, awaitable awaited before the next pop; exit = one group with "
                   "exactly the raised exceptions, cause = block exception. __aexit__ is verified over the AsyncExitStack model: teardown is the "
                   "first entry run, closed on every outcome, block exception re-raised as itself.",
-    "level_note": "Trusted: A0, A1, A-XS, A-TG2, A-TD1, A-TD2, A-EXC, pyvc encoding. fixed: F7 (ambient exception). Bounded harness covers the "
-                  "@context_teardown route and both backends' real behaviour on sampled scenarios.",
+    "level_note": "Trusted: A0, A1, A-XS, A-TG2, A-TD1, A-TD2, A-EXC, pyvc encoding. fixed: F7 (ambient exception). Bounded harness covers "
+                  "both backends' real behaviour on sampled scenarios.",
     "design_ref": "DESIGN.md section 5 (C01)",
     "explanation": "loop invariant stack-invariant, monitors lifo:largest-pending-token / exactly-once / arg-is-block-exception / awaits-the-callbacks-awaitable",
 }
